@@ -26,7 +26,7 @@ ASSUMPTIONS = [
     '400*(d+2)^2 characters for a travelled chain of length d',
     'reference reachability/cycle analysis in vlib/ref.py',
 ]
-FLOORS = {'cyclic_cases': 100, 'acyclic_cases': 100, 'failure_cases': 30,
+FLOORS = {'cyclic_cases': 100, 'acyclic_cases': 100, 'failure_cases': 100,
           'budget_armed': 200, 'evaluate_entries_seen': 1000}
 ANCHOR_FUNCS = {
     'xlcalculator/evaluator.py': ['Evaluator.evaluate',
@@ -112,9 +112,10 @@ class Case:
             model = build.model_from_dict(wb, default_sheet=first)
         return wb, model
 
-    def evaluate(self, model, key, n_cells, depth=None):
+    def evaluate(self, model, key, n_cells, depth=None, ev=None):
         from xlcalculator import Evaluator
-        ev = Evaluator(model)
+        ev = ev if ev is not None else Evaluator(model)
+        self.last_evaluator = ev
         budget = 4 * (n_cells + 1) ** 2
         self.rec.arm(budget=budget, depth_budget=n_cells + 2)
         self.ctx.event('budget_armed')
@@ -186,9 +187,9 @@ def run(ctx):
                       'message_chars': msg_len}, monitor='cycle-reported',
                      group='cyclic:' + key[0] + ':' + cls)
 
-    def judge_acyclic(desc, key, wb, model, start, ncells):
+    def judge_acyclic(desc, key, wb, model, start, ncells, ev=None):
         got, entries, nesting, msg_len, budget = C.evaluate(
-            model, start, ncells)
+            model, start, ncells, ev=ev)
         cls = classify_outcome(got)
         want = ('value', ref.to_norm(wb.value(start)))
         ctx.event('acyclic_cases')
@@ -290,49 +291,123 @@ def run(ctx):
                      monitor='construction', group='build')
             continue
         judge_acyclic(desc, ('decoy', desc), wb, model, start, len(cells))
+        judge_acyclic(desc + ' (same evaluator again)', ('decoy2', desc), wb,
+                      model, start, len(cells), ev=C.last_evaluator)
 
     # ---- failure injection at every depth --------------------------------------
-    stop_growing = False
+    # link styles: how one cell of the chain reaches the next one
+    def link(style, nxt):
+        if style == 'plus':
+            return plus(nxt, ONE)
+        if style == 'if':
+            return ('call', 'IF', [('lit', True, 'TRUE'), plus(nxt, ONE),
+                                   ('lit', 0, '0')])
+        if style == 'if-cond':
+            return ('call', 'IF', [('bin', '>', nxt, ('lit', 0, '0')), ONE,
+                                   ('lit', 2, '2')])
+        if style == 'not':
+            return ('call', 'NOT', [nxt])
+        if style == 'and':
+            return ('call', 'AND', [('lit', True, 'TRUE'), nxt])
+        if style == 'or':
+            return ('call', 'OR', [('lit', False, 'FALSE'), nxt])
+        if style == 'sum':
+            return ('call', 'SUM', [nxt, ONE])
+        if style == 'range':
+            return ('call', 'SUM', [('rng', None, nxt[2], nxt[3], nxt[2],
+                                     nxt[3], (False,) * 4), ONE])
+        if style == 'neg':
+            return ('neg', nxt)
+        raise ValueError(style)
+    styles = ['plus', 'if', 'if-cond', 'not', 'and', 'or', 'sum', 'range',
+              'neg']
+    stop_growing = set()
     for length in (5, 10, 15, 20, 25, 30, 40, 50, 60):
-        if stop_growing:
-            break
         depths = sorted({1, 2, length // 2, length - 1, length}
                         | (set(range(1, length + 1)) if thorough and
                            length <= 20 else set()))
         for k in depths:
-            for poison in ('NOSUCHFUNCTION(1)', 'BOOM(1)'):
-                if not mine():
-                    continue
-                cells = {}
-                for i in range(1, k):
-                    cells[(S, 1, i)] = ('f', plus(R(1, i + 1), ONE))
-                pname, parg = poison[:-3], poison[-2]
-                cells[(S, 1, k)] = ('f', ('call', pname,
-                                          [('lit', 1, '1')]))
-                wb, model = C.build(cells, {}, 'dict')
-                got, entries, nesting, msg_len, budget = C.evaluate(
-                    model, (S, 1, 1), len(cells))
-                cls = classify_outcome(got)
-                ctx.event('failure_cases')
-                ctx.case(('failure', length, k, poison, cls))
-                bound = 400 * (k + 2) ** 2
-                bad = []
-                if cls not in ('other-exception',):
-                    bad.append(f'outcome {cls}: {str(got)[:160]}')
-                if msg_len > bound:
-                    bad.append(f'failure text of {msg_len} characters for a '
-                               f'chain of {k} (bound {bound})')
-                    if msg_len > 2_000_000:
-                        stop_growing = True
-                if bad:
-                    ctx.fail(f'{poison} at depth {k} of a chain: '
-                             + '; '.join(bad),
-                             {'depth': k, 'poison': poison,
-                              'message_chars': msg_len, 'entries': entries,
-                              'outcome': str(got)[:300]},
-                             monitor='failure-report-size',
-                             group='failure:' + poison[:4] + ':' + (
-                                 'size' if msg_len > bound else cls))
+            for poison in ('NOSUCHFUNCTION', 'BOOM', 'CYCLE'):
+                for style in styles:
+                    if (poison, style) in stop_growing:
+                        continue
+                    if not mine():
+                        continue
+                    if style != 'plus' and poison != 'CYCLE' and \
+                            k not in (2, length // 2, length) and \
+                            not thorough:
+                        continue
+                    cells = {(S, 2, 1): 1}               # B1: the switch
+                    for i in range(1, k):
+                        cells[(S, 1, i)] = ('f', link(style, R(1, i + 1)))
+                    if poison == 'CYCLE':
+                        cells[(S, 1, k)] = ('f', link(style, R(1, max(
+                            1, k - 1))))
+                    else:
+                        cells[(S, 1, k)] = ('f', ('call', poison,
+                                                  [R(2, 1)]))
+                    wb, model = C.build(cells, {}, 'dict')
+                    got, entries, nesting, msg_len, budget = C.evaluate(
+                        model, (S, 1, 1), len(cells))
+                    ev = C.last_evaluator
+                    cls = classify_outcome(got)
+                    ctx.event('failure_cases')
+                    ctx.case(('failure', length, k, poison, style, cls))
+                    bound = 400 * (k + 2) ** 2
+                    bad = []
+                    expected = 'cycle-report' if poison == 'CYCLE' else \
+                        'other-exception'
+                    if cls != expected:
+                        bad.append(f'outcome {cls}: {str(got)[:160]}')
+                    if msg_len > bound:
+                        bad.append(f'failure text of {msg_len} characters '
+                                   f'for a chain of {k} (bound {bound})')
+                        if msg_len > 1_000_000:
+                            stop_growing.add((poison, style))
+                    # the same evaluator again: the same report, in
+                    # particular no cycle report on an acyclic chain
+                    got2, *_ = C.evaluate(model, (S, 1, 1), len(cells),
+                                          ev=ev)
+                    cls2 = classify_outcome(got2)
+                    if cls2 != expected:
+                        bad.append(f'second evaluation on the same evaluator:'
+                                   f' {cls2}: {str(got2)[:160]}')
+                    # a dependant / a precedent of the failing chain
+                    if k > 2 and poison != 'CYCLE':
+                        got3, *_ = C.evaluate(model, (S, 1, k - 1),
+                                              len(cells), ev=ev)
+                        if classify_outcome(got3) != expected:
+                            bad.append(f'evaluating {build.addr((S, 1, k - 1))}'
+                                       f' afterwards: {str(got3)[:160]}')
+                    # repair the input: BOOM(0) passes, the chain has a value
+                    if poison == 'BOOM':
+                        ev.set_cell_value(build.addr((S, 2, 1)), 0)
+                        wb.cells[(S, 2, 1)] = 0
+                        got4, *_ = C.evaluate(model, (S, 1, 1), len(cells),
+                                              ev=ev)
+                        try:
+                            want4 = ('value', ref.to_norm(wb.value(
+                                (S, 1, 1))))
+                        except ref.Undecided:
+                            want4 = None
+                        if want4 is not None and got4 != want4:
+                            bad.append(f'after repairing the input: '
+                                       f'{str(got4)[:160]}, reference '
+                                       f'{want4}')
+                    if bad:
+                        ctx.fail(f'{poison} at depth {k} of a chain linked '
+                                 f'by "{style}": ' + '; '.join(bad),
+                                 {'depth': k, 'poison': poison,
+                                  'link': style,
+                                  'cells': build.dict_of(wb) if k < 12
+                                  else 'chain',
+                                  'message_chars': msg_len,
+                                  'entries': entries,
+                                  'outcome': str(got)[:300]},
+                                 monitor='failure-report',
+                                 group=f'failure:{poison[:4]}:{style}:'
+                                       + ('size' if msg_len > bound
+                                          else bad[0][:12]))
 
     # ---- random digraphs -------------------------------------------------------
     count = (30000 if thorough else 400) // n
